@@ -5,6 +5,7 @@
 import Gts.Lemmas.Delete
 import Gts.Model.Seq
 import Gts.Model.GbSlice
+import Gts.Lemmas.Bounds
 namespace Gts.C03
 open Gts Loc
 
@@ -92,6 +93,14 @@ theorem point_del_collapse (p i k : Int) (h1 : i ≤ p) (h2 : p < i + k) :
     expand (point p) i (-k) = between i := by
   simp only [expand, pointExpand]
   rw [if_pos (by omega)]
+
+/-- **no resulting location refers to a position outside the new sequence**: deleting `[i, i+k)`
+from a sequence of length `L` maps every location whose coordinates lie in `[0, L]` to one whose
+coordinates lie in `[0, L-k]` — every kind, nesting and arity, no guard (Join only copies
+coordinates). -/
+theorem expand_del_inside (L i k : Int) (hi : 0 ≤ i) (hk : 0 < k) (hL : i + k ≤ L) (l : Loc)
+    (h : coordsAll (inB 0 L) l = true) : coordsAll (inB 0 (L - k)) (expand l i (-k)) = true :=
+  expand_del_coords L i k hi hk hL l h
 
 /-- well-formedness is preserved -/
 theorem expand_del_wf (l : Loc) (i k : Int) (hw : wf l = true) (hk : 0 < k) :
